@@ -65,6 +65,15 @@ def make_operand(ctx, algopy, kind, name, shape, D, P, cplx):
         return c, (lambda d, p, idx: cv if d == 0 else 0)
     if kind == 'npint':
         return np.int64(2), (lambda d, p, idx: 2 if d == 0 else 0)
+    if kind == 'npfloat32':
+        return np.float32(0.5), (lambda d, p, idx: (Fraction(1, 2) if sym else 0.5) if d == 0 else 0)
+    if kind == 'pybool':
+        return True, (lambda d, p, idx: 1 if d == 0 else 0)
+    if kind == 'nd0':
+        # 0-d ndarray constant
+        return np.array(0.75), (lambda d, p, idx: (Fraction(3, 4) if sym else 0.75) if d == 0 else 0)
+    if kind == 'npint8':
+        return np.int8(-3), (lambda d, p, idx: -3 if d == 0 else 0)
     raise KeyError(kind)
 
 
@@ -243,12 +252,13 @@ def units(tier, seed):
         add('utpm %s ndarray/(2,),(P,2)' % op, 'h_binop', op=op, lkind='utpm', rkind='ndarray', lshape=(2,), rshape=(P, 2), D=D, P=P)
         add('ndarray %s utpm/(P,2),(2,)' % op, 'h_binop', op=op, lkind='ndarray', rkind='utpm', lshape=(P, 2), rshape=(2,), D=D, P=P)
         add('ndarray %s utpm/(P,),()' % op, 'h_binop', op=op, lkind='ndarray', rkind='utpm', lshape=(P,), rshape=(), D=D, P=P)
-        for sk in ('pyscalar', 'pyint', 'npscalar', 'npint'):
-            for sh in ((), (2,), (2, 2)):
+        for sk in ('pyscalar', 'pyint', 'npscalar', 'npint', 'npfloat32', 'pybool', 'nd0', 'npint8'):
+            for sh in ((), (2,), (2, 2)) if sk in ('pyscalar', 'pyint', 'npscalar', 'npint') else ((), (2,)):
                 add('utpm %s %s/%s' % (op, sk, sh), 'h_binop', op=op, lkind='utpm', rkind=sk, lshape=sh, rshape=(), D=D, P=P)
                 add('%s %s utpm/%s' % (sk, op, sh), 'h_binop', op=op, lkind=sk, rkind='utpm', lshape=(), rshape=sh, D=D, P=P)
         # in-place forms
-        for rk, rs in (('utpm', (2,)), ('utpm', (1,)), ('utpm', ()), ('ndarray', (2,)), ('pyscalar', ()), ('npscalar', ()), ('utpm', (2, 2))):
+        for rk, rs in (('utpm', (2,)), ('utpm', (1,)), ('utpm', ()), ('ndarray', (2,)), ('pyscalar', ()), ('npscalar', ()), ('utpm', (2, 2)),
+                       ('pyint', ()), ('npint', ()), ('npfloat32', ()), ('nd0', ()), ('ndarray', (1,))):
             for ls in ((2,), (2, 2)):
                 add('utpm %s= %s/%s,%s' % (op, rk, ls, rs), 'h_binop', op=op, lkind='utpm', rkind=rk, lshape=ls, rshape=rs,
                     D=D, P=P, form='inplace')
